@@ -5,6 +5,8 @@ import (
 	"errors"
 	"fmt"
 	"io"
+	"os"
+	"path/filepath"
 	"regexp"
 	"strings"
 
@@ -81,7 +83,14 @@ var c07Progs = []string{
 	`BEGIN { while (("src" | getline) > 0) { n++; obs(n, n, $0, RT) } }`,
 	// RS assigned in mid-input (after record number `at`)
 	`{ obs(NR, FNR, $0, RT) } NR == at { RS = rs2 }`,
+	// file readers (reader hook of the overlay: the scanner built on the opened file reads the chosen chunks)
+	`BEGIN { while ((getline line < file) > 0) { n++; obs(n, n, line, RT) } }`,
+	`BEGIN { while ((getline < file) > 0) { n++; obs(n, n, $0, RT) } }`,
+	`{ obs(NR, FNR, $0, RT) }`, // the file is the operand
 }
+
+// c07FileProgs: programs 6..8 read a named file.
+func c07FileProg(p int) bool { return p >= 6 && p <= 8 }
 
 // c07World hands the chunked reader to the interpreter as the standard output
 // pipe of every command it starts.
@@ -93,6 +102,7 @@ func (w *c07World) Start(c *vexp.Cmd) error                       { return nil }
 func (w *c07World) Wait(c *vexp.Cmd) error                        { return nil }
 
 type c07Runner struct {
+	file  string // an existing (empty) file: what is read from it is decided by the reader hook
 	progs []*parser.Program
 	recs  []c07Rec
 	funcs map[string]any
@@ -105,6 +115,12 @@ func newC07Runner() *c07Runner {
 		r.progs = append(r.progs, awk.MustParse(src, r.funcs))
 	}
 	return r
+}
+
+func (r *c07Runner) cleanup() {
+	if r.file != "" {
+		os.Remove(r.file)
+	}
 }
 
 var errBoom = errors.New("injected read error")
@@ -123,6 +139,33 @@ func (r *c07Runner) run(cs c07Case) ([]c07Rec, awk.Result) {
 		cfg.Stdin = strings.NewReader("")
 		vexp.SetWorld(&vexp.World{Impl: &c07World{rd}})
 		defer vexp.SetWorld(nil)
+	}
+	if c07FileProg(cs.Prog) {
+		if r.file == "" {
+			r.file = filepath.Join(core.VerifDir, "work", fmt.Sprintf("c07-file-%d", os.Getpid()))
+			if err := os.WriteFile(r.file, nil, 0o644); err != nil {
+				panic(err)
+			}
+		}
+		cfg.Stdin = strings.NewReader("")
+		cfg.Vars = append(cfg.Vars, "file", r.file)
+		if cs.Prog == 8 {
+			cfg.Args = []string{r.file}
+		}
+		wrapped := 0
+		vexp.SetReaderFn(func(under io.Reader) io.Reader {
+			if _, ok := under.(*strings.Reader); ok {
+				return under
+			}
+			wrapped++
+			return rd
+		})
+		defer func() {
+			vexp.SetReaderFn(nil)
+			if wrapped != 1 {
+				panic(fmt.Sprintf("C07 harness: %d file scanners were built for one file program (reader hook not in place?)", wrapped))
+			}
+		}()
 	}
 	res := awk.Exec(r.progs[cs.Prog], cfg)
 	out := r.recs
@@ -363,6 +406,7 @@ func enumStrings(alpha []string, n int, f func(s string)) {
 
 func c07Run(c *core.Ctx) {
 	r := newC07Runner()
+	defer r.cleanup()
 	maxLen := 6
 	if c.Thorough() {
 		maxLen = 8
@@ -393,7 +437,7 @@ func c07Run(c *core.Ctx) {
 				}
 				if n >= 1 && n <= 4 {
 					// other reading paths (getline var / getline), one empty read and one read error at every position
-					for prog := 1; prog <= 4; prog++ {
+					for _, prog := range []int{1, 2, 3, 4, 6, 7, 8} {
 						for mask := uint64(0); mask < nmasks; mask++ {
 							cs := c07Case{RS: st.RS, Input: in, Mask: mask, EOFStyle: 0, EmptyAt: -1, ErrAt: -1, Prog: prog, Spec: st.Spec, Kind: st.Kind}
 							c07Check(c, r, cs, &ref)
@@ -669,6 +713,7 @@ func unrle(g string) string {
 
 func c07Replay(c *core.Ctx, raw json.RawMessage) {
 	r := newC07Runner()
+	defer r.cleanup()
 	var probe struct {
 		Long bool `json:"long"`
 	}
@@ -715,13 +760,13 @@ func init() {
 		ID:    "C07",
 		Level: "model_checking",
 		Rule: "deviation-bounded environment exploration: every input string up to the length bound over a per-RS alphabet x every chunking (2^(n-1)) x 2 EOF styles, " +
-			"plus RS assigned by the program after record 1 or 2 (12 pairs of old/new RS, every chunking, differential oracle; and regex -> each of 13 single characters incl. every regex metacharacter and two bytes that are not valid UTF-8, specification oracle), getline / getline var on stdin and cmd | getline / cmd | getline var on a command's output pipe (inputs up to 4 symbols, every chunking), one empty read / one read error at every position, single split points of longer inputs and 64KiB buffer-edge inputs; " +
+			"plus RS assigned by the program after record 1 or 2 (12 pairs of old/new RS, every chunking, differential oracle; and regex -> each of 13 single characters incl. every regex metacharacter and two bytes that are not valid UTF-8, specification oracle), getline / getline var on stdin, cmd | getline / cmd | getline var on a command's output pipe, and getline var < file / getline < file / a file operand read by the main loop through the overlay's reader hook (inputs up to 4 symbols, every chunking), one empty read / one read error at every position, single split points of longer inputs and 64KiB buffer-edge inputs; " +
 			"a state is one (RS,input), a transition one delivery; distinct = distinct observed record sequences",
 		Assumptions: []string{
 			"bufio.Scanner depends only on the sequence of (n, err) results of Read, so enumerating chunk sequences enumerates pipe timings",
 			"oracle (1) (spec splitter) only where the statement fixes the answer: regexes that cannot match empty; RS=\"\" over {payload, newline}",
 			"Go regexp (leftmost-longest) is a trusted leaf of the specification splitter",
-			"getline < file is not driven with chosen chunkings (the API hands the interpreter a real *os.File); it shares scanner and split functions with the paths that are",
+			"for getline < file and file operands the scanner is built on the harness's chunked reader in place of the opened (empty) file, through the reader hook the overlay puts around every bufio.NewScanner argument in package interp",
 		},
 		Run:    c07Run,
 		Replay: c07Replay,
